@@ -6,7 +6,6 @@ open Ccp.Py Ccp.Wire Ccp.Tree Ccp.Search
 
 def errName : Err → String
   | .valueError => "err:ValueError"
-  | .typeError => "err:TypeError"
   | .indexError => "err:IndexError"
   | .invalidParameters => "err:InvalidParameters"
 
@@ -30,10 +29,10 @@ def nats : Except Err (List Nat) → String
 
 def natLists (ls : List (List Nat)) : String := ";".intercalate (ls.map encNats)
 
-/-- flags: `r` reverse, `c` recurse / all_children, `e` empty_branches, `x` escape_chars -/
+/-- flags: `r` reverse, `c` recurse / all_children, `e` empty_branches -/
 def answer (t : T) (op : String) (fl : String) (rs : List Row) (p1 : Option Row) : String :=
   let has (c : Char) : Bool := fl.toList.contains c
-  let rev := has 'r'; let rec_ := has 'c'; let emp := has 'e'; let esc := has 'x'
+  let rev := has 'r'; let rec_ := has 'c'; let emp := has 'e'
   match op, rs with
   | "fo", [r] => encNats (findObjects t r rev)
   | "fol", _ => nats (findObjectsList t rs rev)
@@ -41,8 +40,8 @@ def answer (t : T) (op : String) (fl : String) (rs : List Row) (p1 : Option Row)
     (match findObjectBranches t rs emp rev with
      | .ok bs => encBranches bs
      | .error e => errName e)
-  | "pl", _ => nats (findParentObjectsList t rs esc)
-  | "cl", _ => nats (findChildObjectsList t rs esc)
+  | "pl", _ => nats (findParentObjectsList t rs rev)
+  | "cl", _ => nats (findChildObjectsList t rs rev)
   | "p2", [p, c] => encNats (findParentObjects2 t p c rec_ rev)
   | "c2", [p, c] => encNats (findChildObjects2 t p c rec_ rev)
   | "w2", [p, c] => encNats (findParentObjectsWoChild2 t p c rec_ rev)
